@@ -54,6 +54,15 @@ type History struct {
 	Fetches     []*DutyFetch
 	Submissions []*Submission
 	Events      []string
+	Roots       []RootAnswer
+}
+
+// RootAnswer records what a node answered to a head block root request.
+type RootAnswer struct {
+	Inc  int
+	Step int
+	T    time.Duration
+	Root phase0.Root
 }
 
 func (h *History) addFetch(f *DutyFetch) { simrt.Crit(func() { h.Fetches = append(h.Fetches, f) }) }
@@ -144,7 +153,20 @@ func toInts(ix []phase0.ValidatorIndex) []int {
 
 // AttesterDuties implements eth2client.AttesterDutiesProvider.
 func (n *Node) AttesterDuties(ctx context.Context, opts *api.AttesterDutiesOpts) (*api.Response[[]*apiv1.AttesterDuty], error) {
-	f := &DutyFetch{Kind: "attester", Epoch: uint64(opts.Epoch), Indices: toInts(opts.Indices), Inc: simrt.CurrentInc(), Step: simrt.Step(), T: simrt.Now(), Att: map[int]*apiv1.AttesterDuty{}}
+	return n.attesterDuties(ctx, opts, "attester")
+}
+
+// SubscriberView is the node as seen by the beacon committee subscriber: its
+// duty requests are recorded under their own kind, because they do not lead to jobs.
+type SubscriberView struct{ N *Node }
+
+// AttesterDuties implements eth2client.AttesterDutiesProvider.
+func (v SubscriberView) AttesterDuties(ctx context.Context, opts *api.AttesterDutiesOpts) (*api.Response[[]*apiv1.AttesterDuty], error) {
+	return v.N.attesterDuties(ctx, opts, "attester-sub")
+}
+
+func (n *Node) attesterDuties(ctx context.Context, opts *api.AttesterDutiesOpts, kind string) (*api.Response[[]*apiv1.AttesterDuty], error) {
+	f := &DutyFetch{Kind: kind, Epoch: uint64(opts.Epoch), Indices: toInts(opts.Indices), Inc: simrt.CurrentInc(), Step: simrt.Step(), T: simrt.Now(), Att: map[int]*apiv1.AttesterDuty{}}
 	n.H.addFetch(f)
 	_, err := n.S.Do(ctx, n.NodeName, "AttesterDuties", nil)
 	f.EndStep, f.EndT = simrt.Step(), simrt.Now()
@@ -154,7 +176,10 @@ func (n *Node) AttesterDuties(ctx context.Context, opts *api.AttesterDutiesOpts)
 		return nil, err
 	}
 	tab := n.M.AttesterTable(uint64(opts.Epoch))
-	odd := n.odd("AttesterDuties")
+	odd := ""
+	if kind == "attester" {
+		odd = n.odd("AttesterDuties")
+	}
 	var out []*apiv1.AttesterDuty
 	for _, v := range f.Indices {
 		d, ok := tab.Duties[v]
@@ -410,6 +435,9 @@ func (n *Node) BeaconBlockRoot(ctx context.Context, opts *api.BeaconBlockRootOpt
 		return &api.Response[*phase0.Root]{Data: nil, Metadata: md()}, nil
 	}
 	r := root
+	simrt.Crit(func() {
+		n.H.Roots = append(n.H.Roots, RootAnswer{Inc: simrt.CurrentInc(), Step: simrt.Step(), T: simrt.Now(), Root: root})
+	})
 	return &api.Response[*phase0.Root]{Data: &r, Metadata: md()}, nil
 }
 
